@@ -650,6 +650,10 @@ def rule_multiout(ctx):
 
 
 def run(ctx):
+    from ..report import SubCtx
+    from . import c04
+    sub = SubCtx(ctx, 'C02.names', 'the name table and the variant blocks are part of the emitted bytes: their sources (one entry per control name, one full-width block per variant), as decided for C04')
+    c04.rule_names(sub)
     rule_multiout(ctx)
     # the bytes of a definition are cached only after the writer returned: a write that raises must not leave a truncated
     # prefix behind that later as_bytes()/send() hand out
@@ -709,6 +713,20 @@ def run(ctx):
             ok = any(w and w[0] == 'count' and w[1] <= k[1] for w in wk)
             ctx.ob('C02.valid', f'{rd.fq}:rejects[more-than-{k[1]}-names]:writer-refuses', ok,
                    f'the reader rejects more than {k[1]} control names; the writer must refuse to emit them', wr.node, wr.module)
+    # a unit built for another definition is not among this definition's units: whatever reads it never becomes available in the
+    # topological sort and is dropped without a word; the generic validity check must refuse it
+    cv = ctx.repo.func('sc3.synth.ugen:SynthObject._check_valid_inputs')
+    foreign = False
+    for t in walk_local(cv.node):
+        if isinstance(t, ast.If) and any(isinstance(x, ast.Return) and x.value is not None and not (isinstance(x.value, ast.Constant) and x.value.value is None)
+                                         for x in t.body):
+            for c in U.conjuncts(t.test):
+                cp = U.compare_parts(c)
+                if cp and cp[1] in (ast.IsNot, ast.NotEq) and {norm(cp[0]).split('.')[-1], norm(cp[2]).split('.')[-1]} == {'_synthdef'} \
+                        and 'self._synthdef' in (norm(cp[0]), norm(cp[2])):
+                    foreign = True
+    ctx.ob('C02.valid', f'{cv.fq}:foreign-unit', foreign,
+           'an input that is a unit of another definition (a closure leak from an earlier build) must make the validity check return an error', cv.node, cv.module)
     from .. import beliefs
     ctx.rule('C02.desc', 'the description keeps what it read: no value read from the definition is replaced because it is falsy (bus 0)')
     beliefs.rule_ordefault(ctx, 'C02.desc', ['sc3.synth.synthdesc'])
@@ -736,6 +754,8 @@ def run(ctx):
 
 
 MUTANTS = [
+    dict(rule='C02.valid', name='foreign units accepted as inputs (fix reverted)', file='sc3/synth/ugen.py',
+         old="            if isinstance(input, UGen)\\\n            and input._synthdef is not self._synthdef:\n", new="            if False:\n"),
     dict(rule='C02.desc', name='description lists Out units as inputs', file='sc3/synth/synthdesc.py',
          old="            add_iodesc(self.outputs, ugen._num_audio_channels())", new="            add_iodesc(self.inputs, ugen._num_audio_channels())"),
     dict(rule='C02.desc', name='control bus name looked up without the special index', file='sc3/synth/synthdesc.py',
